@@ -34,8 +34,9 @@
      narrowing,spread}.rs — ~10 kLoC of flow-sensitive, provenance-keyed narrowing), i.e. the
      proof that every program it emits satisfies `run_ok` (O1-O4 at every step).  That part is
      DECIDED PER PROGRAM by ./check C01 on the real compiler and VM (vplib/props/c01.py); on the
-     tree as it is the statement is FALSE — known findings F1 F2 F13c01 F27 F53 F54 F58 F59 F66 F67
-     F68 F74, each with a reproducer in known_findings.json. *)
+     tree as it is the statement is FALSE — open findings F27 F67 F68 F80 F81 F83 F84 (repaired since
+     they were found: F1 F2 F13c01 F53 F54 F58 F59 F66 F74), each with a reproducer in
+     known_findings.json. *)
 From Quiver Require Import Base Types Sem Rel RelProofs Builtins BuiltinWf.
 From Quiver Require vm.Vm.
 From Quiver Require Import typed.Typed typed.BuiltinTyped typed.TypedProofs.
